@@ -29,7 +29,8 @@ SPECIAL = [
     # valid UTF-8 that encoding sniffers take for something else
     '~{1!~} caf\u00e9', '+AGE-+AGI- d\u00e9j\u00e0', '\ufeffBOM inside',
     # two machine-specific things on one line
-    'copied {CWD}/in.dat to {TMPDIR}/out.dat', '{USER}@{HOST}:{HOME}']
+    'copied {CWD}/in.dat to {TMPDIR}/out.dat', '{USER}@{HOST}:{HOME}',
+    'schema {TODAY_YY} status ok']
 # extra (ignored) arguments on the command line: they end up, quoted, in the
 # command string that gentest embeds in the generated script
 CMD_ARGS = ['plain', 'two words', "it's", 'say "hi"', 'C:\\Users\\x', '\\N{x}',
@@ -66,6 +67,8 @@ def out_file(draw, i):
                                      # script has anyway
                                      ['stdout', 'stderr', 'exit.code',
                                       'no exception'][i % 4],
+                                     # a name that is also a glob pattern
+                                     'log[%d].txt' % i,
                                      # names that differ only in characters
                                      # a Python identifier cannot hold
                                      draw(st.sampled_from(
@@ -237,7 +240,13 @@ class Workdir(object):
         for d in (self.w, self.p, self.tmp, self.home):
             os.makedirs(d, exist_ok=True)
         self.env = {
-            'TODAY': ctx_env['today'], 'CWD': self.w, 'HOME': self.home,
+            'TODAY': ctx_env['today'],
+            # today's date with a two-digit year (dd.mm.yy): a version-like
+            # stamp, not one of the date forms gentest recognises
+            'TODAY_YY': '%s.%s.%s' % (ctx_env['today'][8:10],
+                                     ctx_env['today'][5:7],
+                                     ctx_env['today'][2:4]),
+            'CWD': self.w, 'HOME': self.home,
             'TMPDIR': self.tmp, 'USER': 'tvuserzq', 'HOST': ctx_env['host'],
         }
         self.outdir = 'outdir' if case['how'] == 'subdir' else ''
@@ -258,7 +267,9 @@ class Workdir(object):
         if case.get('bystanders'):
             # names that no generated glob (*.txt, *.bin, ...) matches:
             # a file matched by a glob the user gives IS declared an output
-            for (name, data) in (('notes.keep', b'keep me\n'),
+            for (name, data) in (('log0.txt', b'not an output\n'),
+                                 ('log1.txt', b'not an output\n'),
+                                 ('notes.keep', b'keep me\n'),
                                  ('data.keepbin', b'\x00\x01\x02'),
                                  ('sub/inner.keep', b'inner\n')):
                 p = os.path.join(self.w, name)
